@@ -64,6 +64,7 @@ pub fn run(name: &str, raw: &[u8]) -> Option<u32> {
         "builder_step_2_2_1_1_g2" => builder::builder_step::<2, 2, 1, 1, 2>(&arr(raw)),
         "builder_step_2_2_1_1_g3" => builder::builder_step::<2, 2, 1, 1, 3>(&arr(raw)),
         "builder_module" => builder::builder_module(&arr(raw)),
+        "type_identical" => builder::type_identical(&arr(raw)),
         "builder_types" => builder::builder_types(&arr(raw)),
         "parse_header" => misc::parse_header(&arr(raw)),
         "string_pack" => misc::string_pack(&arr(raw)),
@@ -71,6 +72,7 @@ pub fn run(name: &str, raw: &[u8]) -> Option<u32> {
         "parse_literal" => misc::parse_literal(&arr(raw)),
         "storage_u8" => storage::storage_u8(&arr(raw)),
         "storage_odd" => storage::storage_odd(&arr(raw)),
+        "storage_keyed" => storage::storage_keyed(&arr(raw)),
         _ => {
             #[cfg(any(kani, rspirv_verif))]
             {
